@@ -271,4 +271,54 @@ theorem metaRawOf_spec (L : Lib) (text : Cps) :
         simp [used, truthy]
         rcases L.msg (a :: l) with e | ⟨mt, p⟩ <;> rfl
 
+/-! ## totality -/
+
+theorem xmlOf_ok (tt : Nat) (txt : Cps) : ∃ x, xmlOf tt txt = .ok x := by
+  unfold xmlOf
+  by_cases h1 : (tt == C20.XML_APPLICATION_TYPE) = true <;> by_cases h2 : (tt == C20.HTML_TEXT_TYPE) = true <;>
+    simp [h1, h2, sniffCaught_spec]
+
+theorem getMetaInfo_ok_of_not_raises (m : MetaRaw) (h : m ≠ .raises) : ∃ p, getMetaInfo m = .ok p := by
+  cases m with
+  | raises => exact absurd rfl h
+  | absent => exact ⟨_, rfl⟩
+  | found mt p => cases p <;> exact ⟨_, rfl⟩
+
+/-- `getEncodingInfo` returns whenever there is a document or a response to read it from and the meta stage does not
+raise -/
+theorem getEncodingInfo_total (resp : Option Resp) (text : Option Cps) (m : MetaRaw) (t : Option Cps)
+    (hgiven : text ≠ none ∨ resp ≠ none) (hm : m ≠ .raises) : ∃ i, getEncodingInfo resp text m t = .ok i := by
+  have he : ∃ txt, effText resp text = .ok txt := by
+    cases text with
+    | some x => exact ⟨x, rfl⟩
+    | none =>
+      cases resp with
+      | some r => exact ⟨_, rfl⟩
+      | none => rcases hgiven with h | h <;> exact absurd rfl h
+  obtain ⟨txt, he⟩ := he
+  obtain ⟨x, hx⟩ := xmlOf_ok (typeOf resp txt) txt
+  have hmo : ∃ p, metaOf (typeOf resp txt) m = .ok p := by
+    unfold metaOf
+    split
+    · exact getMetaInfo_ok_of_not_raises m hm
+    · exact ⟨_, rfl⟩
+  obtain ⟨p, hp⟩ := hmo
+  exact ⟨assemble (typeOf resp txt) (httpOf resp) x p t, by simp only [getEncodingInfo, he, hx, hp]⟩
+
+theorem metaRawOf_not_raises (L : Lib) (text : Cps) (h1 : ∀ e, L.html text ≠ .error e)
+    (h2 : ∀ evs c e, L.html text = .ok evs → specMetaScan evs = some c → L.msg c ≠ .error e) :
+    metaRawOf L text ≠ .raises := by
+  rw [metaRawOf_spec]
+  cases hh : L.html text with
+  | error e => exact absurd hh (h1 e)
+  | ok evs =>
+    simp only
+    cases hs : specMetaScan evs with
+    | none => simp
+    | some c =>
+      simp only
+      cases hm : L.msg c with
+      | error e => exact absurd hm (h2 evs c e hh hs)
+      | ok p => obtain ⟨mt, pp⟩ := p; simp
+
 end CssVerif.Encutils
